@@ -5,7 +5,7 @@ open PttVerif PttVerif.C18 PttVerif.C11
 /-
 ops (state = the current board table, set by `reset`):
   reset <maxBoard> <nameLen> <boards> <byName> <byClass>
-        boards  = `-` | name:title8:g , ...     (hex Brdname, hex Title[:8], g = 1 for a group/symbolic board)
+        boards  = `-` | name:title8:g[:gid:childCount] , ...  (hex Brdname, hex Title[:8], g = 1 for a group/symbolic board)
         byName / byClass = `-` | decimal BSorted entries (the REAL arrays after ReloadBCache: sort.Sort is trusted,
         the model takes any permutation; the answer says whether each is sorted under the model's `Less`)
   bid <qhex>                                 cache.GetBid
@@ -14,6 +14,9 @@ ops (state = the current board table, set by `reset`):
   ac <asc|desc> <kwhex>                      cache.FindBoardAutoCompleteStartIdx
   page <name|class> <asc|desc> <n> <cursor>  bbs.LoadGeneralBoards     cursor = `-` | clshex:namehex
   apage <asc|desc> <n> <kwhex> <cursor>      bbs.LoadAutoCompleteBoards
+  fpage <startBid> <n>                       bbs.LoadFullClassBoards
+  fwalk <n>                                  client loop over bbs.LoadFullClassBoards (next_bid)
+  children <classBid> <name|class>           bbs.LoadClassBoards
   dpage <name|class> <asc|desc> <n> <cursor> bbs.LoadGeneralBoardDetails
   dwalk <name|class> <asc|desc> <n>          client loop over bbs.LoadGeneralBoardDetails
   walk <name|class> <asc|desc> <n>           client loop over bbs.LoadGeneralBoards
@@ -22,6 +25,8 @@ ops (state = the current board table, set by `reset`):
 
 structure St where
   t : Tbl := ⟨0, 13, [], []⟩
+  slots : List Entry := []
+  cls : ClsState := ⟨[], []⟩
 
 def parseDir : String → Option Bool
   | "asc" => some true
@@ -33,12 +38,19 @@ def parseBy : String → Option SortBy
   | "class" => some .cls
   | _ => none
 
-def parseBoard (s : String) : Option Board :=
+def parseBoard3 (n t g : String) : Option Board :=
+  match parseHex n, parseHex t, g with
+  | some n, some t, "0" => some ⟨n, t, false⟩
+  | some n, some t, "1" => some ⟨n, t, true⟩
+  | _, _, _ => none
+
+/-- `name:title8:g` or `name:title8:g:gid:childCount`. -/
+def parseBoard (s : String) : Option (Board × Nat × Nat) :=
   match s.splitOn ":" with
-  | [n, t, g] =>
-    match parseHex n, parseHex t, g with
-    | some n, some t, "0" => some ⟨n, t, false⟩
-    | some n, some t, "1" => some ⟨n, t, true⟩
+  | [n, t, g] => (parseBoard3 n t g).map fun b => (b, 0, 0)
+  | [n, t, g, gid, cc] =>
+    match parseBoard3 n t g, gid.toNat?, cc.toNat? with
+    | some b, some gid, some cc => some (b, gid, cc)
     | _, _, _ => none
   | _ => none
 
@@ -92,6 +104,7 @@ def showR {α} (f : α → String) : R α → String
   | .ok a => f a
   | .error (.fault e) => toString e
   | .error .invalidParams => "invalid-params"
+  | .error .invalidBid => "invalid-bid"
 
 /-- a by-name cursor string does not carry the class: printed as `*`. -/
 def showNext (by_ : SortBy) (c : Option Cursor) : String :=
@@ -111,12 +124,14 @@ def stepC11 (st : St) (ws : List String) : St × String :=
   match ws with
   | ["reset", mb, nl, bs, bn, bc] =>
     match mb.toNat?, nl.toNat?, parseList parseBoard bs, parseList String.toNat? bn, parseList String.toNat? bc with
-    | some mb, some nl, some bs, some bn, some bc =>
+    | some mb, some nl, some bl, some bn, some bc =>
+      let bs := bl.map (·.1)
       if isPerm bn bs.length && isPerm bc bs.length && bs.all (fun b => b.name.length == nl && b.title.length == 8) then
         let t : Tbl := ⟨mb, nl, mkView bs bn, mkView bs bc⟩
         let s1 := if sortedAdj lessName t.byName then 1 else 0
         let s2 := if sortedAdj lessClass t.byClass then 1 else 0
-        ({ t := t }, s!"n={bs.length} sorted={s1},{s2}")
+        ({ t := t, slots := mkView bs (List.range bs.length), cls := ClsState.fresh (bl.map (·.2)) },
+          s!"n={bs.length} sorted={s1},{s2}")
       else (st, "bad-op")
     | _, _, _, _, _ => (st, "bad-op")
   | ["bid", q] =>
@@ -144,6 +159,25 @@ def stepC11 (st : St) (ws : List String) : St × String :=
     match parseDir d, n.toInt?, parseHex k, parseCursor c with
     | some d, some n, some k, some c => (st, showR (showPage .name) (loadAuto t (normCursor .name c) n k d))
     | _, _, _, _ => (st, "bad-op")
+  | ["fpage", b, n] =>
+    match b.toInt?, n.toInt? with
+    | some b, some n =>
+      (st, showR (fun p => s!"ok {showBids p.items} next={match p.next with | none => 0 | some e => e.bid + 1}")
+        (loadFullClass t.maxBoard st.slots b n))
+    | _, _ => (st, "bad-op")
+  | ["fwalk", n] =>
+    match n.toInt? with
+    | some n => (st, showR showPages (walkFullClass t.maxBoard st.slots n))
+    | none => (st, "bad-op")
+  | ["children", c, b] =>
+    match c.toInt?, parseBy b with
+    | some c, some b =>
+      if Int.ofNat st.slots.length < c ∧ c ≤ Int.ofNat t.maxBoard then (st, "beyond-table")
+      else
+        match loadClassBoards t st.cls c b with
+        | .ok (l, cls') => ({ st with cls := cls' }, s!"ok {showBids l}")
+        | .error e => (st, showR (fun (_ : Unit) => "") (.error e))
+    | _, _ => (st, "bad-op")
   | ["dpage", b, d, n, c] =>
     match parseBy b, parseDir d, n.toInt?, parseCursor c with
     | some b, some d, some n, some c => (st, showR (showPage b) (loadDetails t b (normCursor b c) n d))
